@@ -41,6 +41,9 @@ def configs(tier):
                   ("b.log", b"2000-01-01 00:00:02 host app: b1\n2000-01-01 00:00:03 host app: b2\n")], [])
     c["apache2"] = ([("a.log", b'127.0.0.1 - - [01/Jan/2000:00:00:01 +0000] "GET /a1 HTTP/1.1" 200 12\n127.0.0.1 - - [01/Jan/2000:00:00:03 +0000] "GET /a2 HTTP/1.1" 200 12\n'),
                      ("b.log", b'127.0.0.1 - - [01/Jan/2000:00:00:02 +0000] "GET /b1 HTTP/1.1" 200 12\n127.0.0.1 - - [01/Jan/2000:00:00:03 +0000] "GET /b2 HTTP/1.1" 200 12\n')], [])
+    # (f) a path that gets no worker (an empty file) named BEFORE the sources: PathIds and worker indexes then differ;
+    # the last source still has more messages than a channel holds when the short one finishes
+    c["gap"] = ([("e.log", b""), ("s.wtmp", wt([(1, 0, "S1")])), ("l.wtmp", wt([(10 + i, 0, "L%d" % i) for i in range(9)]))], [])
     if tier == "thorough":
         c["ties3"] = ([("a.wtmp", wt([(5, 0, "A1")])), ("b.wtmp", wt([(5, 0, "B1")])), ("c.wtmp", wt([(5, 0, "C1")]))], [])
         c["three"] = ([("a.wtmp", wt([(1, 0, "A1"), (4, 0, "A2")])), ("b.wtmp", wt([(2, 0, "B1"), (4, 0, "B2")])),
@@ -58,8 +61,8 @@ def build_config(work, name, files, extra, **kw):
         common.write_file(os.path.join(d, fn), data)
     names = [fn for fn, _ in files]
     args = list(oracle.DEC_ARGS) + ["-t", "+00:00"] + list(extra) + names
-    # workers exist only for valid sources, in argument order; an empty file is still a worker
-    cfg = sched.Config(name, d, args, names, **kw)
+    # workers exist only for sources that are opened, in argument order (a zero-length file gets none)
+    cfg = sched.Config(name, d, args, [fn for fn, data in files if data], **kw)
     per_source = []
     for fn in names:
         msgs, _tail, _r = oracle.single_source_messages(fn, d, extra=extra, binary=common.S4V)
@@ -96,6 +99,14 @@ def run(tier, seed, build=True):
             # default schedule gives the expected exit status
             x0 = cfg.run([])
             if x0.trace is None:
+                # no trace: the harness lost control, or the program itself hangs/dies. Ask the program, uncontrolled.
+                free = [common.run_s4(cfg.args, cwd=cfg.workdir, timeout=20, binary=common.S4V) for _ in range(2)]
+                if any(r.timed_out or r.rc not in (0, 1) for r in free):
+                    res.count()
+                    res.violation({"symptom": "hang-or-crash-uncontrolled", "config": name}, "config %s: `s4 %s` does not end (or dies) even without the scheduler: rc %s" % (
+                        name, " ".join(cfg.args), [("timeout" if r.timed_out else r.rc) for r in free]),
+                        {"engine": "E-CLI", "config": name, "args": cfg.args, "files": {fn: common.b64(data) for fn, data in files}, "expected_stdout": common.b64(expected)})
+                    continue
                 raise common.MachineryError("default schedule of %s left no trace: rc=%s %r" % (name, x0.rc, x0.err[-300:]))
             judge = make_judge(expected, x0.rc)
             budget = (25000, 40) if tier == "quick" else (400000, 1500)
